@@ -1,4 +1,13 @@
-//! C18 for Frequent Items (num_active_items <= maximum_map_capacity in every explored state):
-//! attached when the C07 explorer is merged in.
+//! C18 for Frequent Items (num_active_items <= maximum_map_capacity, image size) and t-digest
+//! image size, in every state of their explorations.
 use crate::common::Ctx;
-pub fn run(_ctx: &Ctx) {}
+use crate::obs;
+use rayon::prelude::*;
+
+pub fn run(ctx: &Ctx) {
+    let jobs: Vec<Box<dyn Fn() + Sync + Send>> = vec![
+        Box::new(|| crate::c07::explore(ctx, &obs::fi_spec)),
+        Box::new(|| crate::c10::explore(ctx, &obs::td_spec)),
+    ];
+    jobs.par_iter().for_each(|j| j());
+}
